@@ -75,7 +75,7 @@ def check(ctx: Ctx) -> str:
     ctx.rule("R4", "adjacent string literals are concatenated; number and string tokens become Const nodes carrying the converted value; constants are re-emitted with repr()")
     pp = repo.func("parser:Parser.parse_primary")
     s = ast.unparse(pp.node)
-    ctx.check("while self.stream.current.type == 'string':" in s and "buf.append(self.stream.current.value)" in s and "nodes.Const(''.join(buf), lineno=lineno)" in s, "adjacent-strings", "parser:Parser.parse_primary", "string concatenation", "adjacent string tokens must be joined into one Const", pp.loc())
+    ctx.check("while self.stream.current.type == 'string':" in s and "buf.append(self.stream.current.value)" in s and "nodes.Const(''.join(buf), lineno=" in s, "adjacent-strings", "parser:Parser.parse_primary", "string concatenation", "adjacent string tokens must be joined into one Const", pp.loc())
     ctx.check("token.type in ('integer', 'float')" in s and "nodes.Const(token.value, lineno=token.lineno)" in s, "number-const", "parser:Parser.parse_primary", "number constants", "integer / float tokens must become Const(token.value)", pp.loc())
     vc = repo.func("compiler:CodeGenerator.visit_Const")
     s = ast.unparse(vc.node)
